@@ -17,20 +17,23 @@ ONSET, OFFSET, INSET = 0, 1, 2
 KIND_TAGS = ["Onset", "Offset", "Inset"]
 
 
+def _upper(o):
+    """1 if code point o is an ASCII upper-case letter else 0 (arithmetic on purpose: `and`/`if` would fork the
+    symbolic execution once per character; bool * bool stays one z3 term)"""
+    return (o >= 65) * (o <= 90)
+
+
 def _fold(c):
     o = ord(c)
-    if 65 <= o <= 90:
-        return o + 32
-    return o
+    return o + 32 * _upper(o)
 
 
 def is_folded(name):
     """no ASCII upper-case letter in name"""
+    n = 0
     for c in name:
-        o = ord(c)
-        if 65 <= o <= 90:
-            return False
-    return True
+        n = n + _upper(ord(c))
+    return n == 0
 
 
 def same_name(a, b):
